@@ -233,7 +233,7 @@ func plan(prop, tier string) []run {
 	}
 	if prop == "C08" || prop == "C07" {
 		k := 400
-		bud := 12 * time.Second
+		bud := 20 * time.Second
 		if !q {
 			k, bud = 6000, 60*time.Second
 		}
